@@ -71,6 +71,55 @@ def _shadow(*arrs):
             k += 1
 
 
+def _shadow_units(qs, others, conj_second):
+    """shadow valuation for PRODUCTS of unit quaternions: every q in qs gets an exactly unit value; the scalar part of the
+    product q1 q2 is negative when conj_second is False ((1/2)(1,1,1,1) twice: s = -1/2) and positive when it is True
+    (second factor conjugated: s = +1) -- the two signs of the double cover, one concolic path each"""
+    concolic.VAL.clear()
+    concolic.PATH.clear()
+    h = sympy.Rational(1, 2)
+    for k, q in enumerate(qs):
+        vals = [h, h, h, h] if not (conj_second and k == 1) else [h, -h, -h, -h]
+        for sym, v_ in zip(q, vals):
+            concolic.VAL[sym] = v_
+    k = 0
+    for a in others:
+        for sym in np.asarray(a, dtype=object).flatten():
+            concolic.VAL[sym] = sympy.Rational(k + 1, 2 * k + 5) * (-1) ** k
+            k += 1
+
+
+def udq_product(conj_second):
+    """(UnitDualQuaternion(q1, d1) * UnitDualQuaternion(q2, d2)).vec  -- DualQuaternion.__mul__, product branch"""
+    def f(q1, d1, q2, d2):
+        if isinstance(q1[0], sympy.Expr):
+            _shadow_units([q1, q2], [d1, d2], conj_second)
+        return (UnitDualQuaternion(UQ(q1), Quaternion(d1)) * UnitDualQuaternion(UQ(q2), Quaternion(d2))).vec
+    return f
+
+
+def uq_product(conj_second):
+    """(UnitQuaternion q1 * UnitQuaternion q2).vec"""
+    def f(q1, q2):
+        if isinstance(q1[0], sympy.Expr):
+            _shadow_units([q1, q2], [], conj_second)
+        return (UQ(q1) * UQ(q2)).vec
+    return f
+
+
+def two_unit_q_sampler(n_other4, negative):
+    """two unit quaternions whose product has a negative / positive scalar part, plus n_other4 generic 4-vectors"""
+    def s(rng):
+        while True:
+            q1, q2 = rand_unit(rng, 4), rand_unit(rng, 4)
+            sc = q1[0] * q2[0] - q1[1:] @ q2[1:]
+            if (sc < -0.05) if negative else (sc > 0.05):
+                break
+        oth = [rng.normal(size=4) for _ in range(n_other4)]
+        return [q1] + oth[:n_other4 // 2] + [q2] + oth[n_other4 // 2:]
+    return s
+
+
 def udq_point(q, d, v):
     """UnitDualQuaternion(real=UnitQuaternion q, dual=Quaternion d) * v  (DualQuaternion.__mul__, point branch)"""
     if isinstance(q[0], sympy.Expr):
@@ -223,6 +272,13 @@ def build(ctx):
     g.trace('tr_UDQ_v', [('q', 'V4'), ('d', 'V4'), ('v', 'V3')], udq_point, sampler=unit_q_sampler([(4,), (3,)]),
             note='traced under the shadow valuation |q| = 1: products of UnitQuaternions are re-normalised by the '
                  'constructor (base.unit), hence the sqrt terms; path condition: the unit-norm validity test passes')
+    # ---- PRODUCTS on the quaternion routes (composition must act as composition, for both signs of the double cover):
+    #      one concolic path with the scalar part of q1 q2 negative, one with it positive
+    for tag, cs in (('neg', False), ('pos', True)):
+        g.trace(f'tr_UQ_mul_{tag}', [('q1', 'V4'), ('q2', 'V4')], uq_product(cs), sampler=two_unit_q_sampler(0, not cs),
+                note=f'shadow valuation: unit q1, q2 with scalar part of q1 q2 {"> 0" if cs else "< 0"}')
+        g.trace(f'tr_UDQ_mul_{tag}', [('q1', 'V4'), ('d1', 'V4'), ('q2', 'V4'), ('d2', 'V4')], udq_product(cs),
+                sampler=two_unit_q_sampler(2, not cs), note=f'shadow valuation: unit q1, q2 with scalar part of q1 q2 {"> 0" if cs else "< 0"}')
     return g
 
 
@@ -656,6 +712,98 @@ def generic_pose(rng, cn, tmag):
     return T
 
 
+def oracle_products(ctx):
+    """PRODUCTS on the quaternion routes: the product of unit quaternions / unit dual quaternions must act as the
+    composition, (Xq*Yq)*p == X*(Y*p), and agree with the matrix route -- for operands over the whole group, in particular
+    large angles about similar axes (the scalar part of the real-part product is then negative: the other sheet of the
+    double cover) and tiny angles 1e-4..1e-2, with non-zero translations.  Both sheets must be exercised."""
+    rng = ctx.rng
+    N = ctx.n(150, 6000)
+    from lib.gens import rot_from_axis_angle
+
+    def chk(key, lhs, rhs, scale, rep, sheet):
+        lhs, rhs = np.asarray(lhs, float), np.asarray(rhs, float)
+        ctx.count('oracle:' + key)
+        if lhs.size == rhs.size and lhs.shape != rhs.shape:
+            lhs = lhs.reshape(rhs.shape)
+        err = float(np.max(np.abs(lhs - rhs))) if lhs.shape == rhs.shape else float('inf')
+        if not err <= REL * scale:
+            ctx.fail('oracle:' + key, f"{key} fails on the implementation ({sheet}): |lhs-rhs|={err:g}, data magnitude {scale:g}",
+                     dict(rep, law=key, sheet=sheet, lhs=lhs.tolist(), rhs=rhs.tolist()))
+            return
+        sk = f'worst:{key}:{sheet}'
+        ctx.stats[sk] = max(ctx.stats.get(sk, 0.0), err / scale)
+
+    def rot(kind, ax0):
+        if kind == 'large':      # 2 .. pi about an axis close to ax0
+            ax = ax0 + 0.3 * rng.normal(size=3)
+            return rot_from_axis_angle(ax, rng.uniform(2.0, math.pi))
+        if kind == 'tiny':
+            return rot_from_axis_angle(rand_unit(rng), log_uniform(rng, 1e-4, 1e-2))
+        return rand_rot(rng)
+
+    def one(it):
+        kinds = [('large', 'large', 'large'), ('any', 'any', 'any'), ('tiny', 'any', 'large'), ('large', 'tiny', 'tiny'), ('tiny', 'tiny', 'tiny')][it % 5]
+        ax0 = rand_unit(rng)
+        tm = log_uniform(rng, 1e-3, 1e3) if it % 4 else log_uniform(rng, 1e-6, 1e6)
+        Ms = []
+        for kd in kinds:
+            T = np.eye(4)
+            T[:3, :3] = rot(kd, ax0)
+            T[:3, 3] = rand_unit(rng) * tm * rng.uniform(0.2, 1.0)
+            Ms.append(T)
+        Xm, Ym, Zm = Ms
+        pm = log_uniform(rng, 1e-3, 1e3) if it % 4 else tm
+        P = rng.normal(size=(3, 3)) * pm
+        p = P[:, 0]
+        sc_rot = max(float(np.max(np.linalg.norm(P, axis=0))), 1e-300)
+        sc = max(sc_rot, tm)
+        rep = {'kinds': list(kinds), 'X_hex': hexl(Xm), 'Y_hex': hexl(Ym), 'Z_hex': hexl(Zm), 'P_hex': hexl(P)}
+        ctx.case(('oracle-products', it, tuple(p)))
+        Rx, Ry, Rz = Xm[:3, :3], Ym[:3, :3], Zm[:3, :3]
+        app = lambda M, Q: M[:3, :3] @ Q + M[:3, [3]]
+        # ---- unit quaternions (rotation part)
+        qx, qy, qz = UnitQuaternion(Rx), UnitQuaternion(Ry), UnitQuaternion(Rz)
+        sxy = float(base.qqmul(qx.vec, qy.vec)[0])
+        sheet = 'scalar<0' if sxy < 0 else 'scalar>=0'
+        ctx.count('oracle:products:UQ:' + sheet)
+        chk('products:UQ:(qx*qy)*P', (qx * qy) * P, Rx @ Ry @ P, sc_rot, rep, sheet)
+        chk('products:UQ:(qx*qy)*p', (qx * qy) * p, Rx @ Ry @ p, sc_rot, rep, sheet)
+        chk('products:UQ:compose', (qx * qy) * P, qx * np.asarray(qy * P, float), sc_rot, rep, sheet)
+        chk('products:UQ:(qx*qy*qz)*P', (qx * qy * qz) * P, Rx @ Ry @ Rz @ P, sc_rot, rep, sheet)
+        chk('products:UQ:(qx*qy).R', (qx * qy).R, Rx @ Ry, 1.0, rep, sheet)
+        chk('products:UQ:qvmul(qqmul)', base.qvmul(base.qqmul(qx.vec, qy.vec), p), Rx @ Ry @ p, sc_rot, rep, sheet)
+        chk('products:UQ:(qx/qy)*P', (qx / qy) * P, Rx @ Ry.T @ P, sc_rot, rep, sheet)
+        chk('products:UQ:(qx.inv()*qx)*P', (qx.inv() * qx) * P, P, sc_rot, rep, sheet)
+        # ---- unit dual quaternions (rigid motion)
+        xd, yd, zd = (UnitDualQuaternion(SE3(M, check=False)) for M in Ms)
+        xy = xd * yd
+        sd = float(xy.real.s)
+        sheet_d = 'scalar<0' if sxy < 0 else 'scalar>=0'      # sheet of the exact product (a canonicalising change would hide it in xy.real.s)
+        ctx.count('oracle:products:UDQ:' + sheet_d)
+        ref_xy = app(Xm, app(Ym, P))
+        for j in range(2):
+            chk('products:UDQ:(xd*yd)*p', xy * P[:, j], ref_xy[:, j], sc, rep, sheet_d)
+            chk('products:UDQ:compose', xy * P[:, j], xd * np.asarray(yd * P[:, j], float).flatten(), sc, rep, sheet_d)
+        chk('products:UDQ:(xd*yd*zd)*p', (xd * yd * zd) * p, app(Xm, app(Ym, app(Zm, P)))[:, 0], sc, rep, sheet_d)
+        chk('products:UDQ:(xd*yd).SE3()', xy.SE3().A, Xm @ Ym, max(1.0, tm), rep, sheet_d)
+        chk('products:UDQ:(xd*yd).SE3()*P', xy.SE3() * P, ref_xy, sc, rep, sheet_d)
+        return Xm, p
+
+    last = None
+    for it in range(N):
+        try:
+            last = one(it)
+        except Exception as ex:  # noqa
+            ctx.fail(f'oracle:products:raises-{type(ex).__name__}', f"evaluating the product laws raises {type(ex).__name__}: {ex}", {'iteration': it, 'seed': ctx.seed})
+    for route in ('UQ', 'UDQ'):
+        for sheet in ('scalar<0', 'scalar>=0'):
+            if not ctx.stats.get(f'oracle:products:{route}:{sheet}'):
+                ctx.fail(f'oracle:products:{route}:never-exercised', f"no {route} product with {sheet} of the real-part product was evaluated", no_input=True)
+    if last is not None:
+        ctx.sample({'kind': 'oracle-products', 'law': 'products:UDQ:(xd*yd)*p', 'X': last[0].tolist(), 'p': last[1].tolist()})
+
+
 def udq_route(ctx, Xm, p, want, tX, band, rep):
     """UnitDualQuaternion(SE3) * p against X * p; a failure is classified by root cause"""
     try:
@@ -688,6 +836,7 @@ def run(ctx):
                 "(cell or law, input) signature")
     ctx.trusted_extra = ["hand model theories/Model/C06_Dispatch.v of the isinstance/shape dispatch in SMPose.__mul__ "
                          "(super_pose.py:956-994), tied by exhaustive grid correspondence (vm_compute vs implementation) on every run",
+                         "tr_UQ_mul_{neg,pos}, tr_UDQ_mul_{neg,pos} are concolic paths (one per sign of the scalar part of q1 q2); "
                          "tr_UDQ_v, tr_SE2_minv2_c* and tr_*_ma2_c* are single concolic paths (validity test of the UnitQuaternion "
                          "constructor / of SMUserList.__getitem__ passes); their path conditions are not emitted, the theorems about "
                          "them assume |q| = 1 / use them on group members"]
@@ -714,6 +863,8 @@ def run(ctx):
         oracle(ctx)
     with ctx.timed('oracle-multi'):
         oracle_multi(ctx)
+    with ctx.timed('oracle-products'):
+        oracle_products(ctx)
 
 
 def replay(ctx, path):
